@@ -16,6 +16,7 @@ use lightning::chain::transaction::OutPoint;
 use lightning::ln::functional_test_utils::*;
 use lightning::ln::types::ChannelId;
 use lightning::ln::msgs::BaseMessageHandler;
+use lightning::util::wallet_utils::WalletSourceSync;
 
 const PHASES: [&str; 5] = ["funding-unconfirmed", "one-confirmation", "our-channel_ready-sent", "channel-ready", "channel-ready-htlc-pending"];
 
@@ -133,7 +134,10 @@ fn scenario(rng: &mut Rng, sc: usize, phase: usize, upfront: bool, initiator: us
 						rec.case(&format!("cgop {} lshut 0 0", key(*x)), &format!("mon={} disc={} lsh={} rsh={} last={} parked={} timer={} ready={} out=refused", bit(&d1, 8), bit(&d1, 7), bit(&d1, 11), bit(&d1, 10), field(&d1, "last"), field(&d1, "pendcs"), field(&d1, "inflight"), field(&d1, "ready")),
 							&format!("cgop:close_channel-refused:mon={}:disc={}:lsh={}:rsh={}", bit(&d1, 8), bit(&d1, 7), bit(&d1, 11), bit(&d1, 10)), true);
 					} }
-					pos = net.trace.len(); before = (0..2).map(|x| dump(&net, c, x)).collect(); continue; } },
+					pos = net.trace.len(); before = (0..2).map(|x| dump(&net, c, x)).collect(); continue; }
+				// accepted: the code's own rule (get_shutdown) is that no local shutdown is started on top of an in-flight update / towards a disconnected peer
+				if !pend[*x].is_empty() || !linked { history.push(format!("close_channel@{}", x)); rec.oracle_fail(format!("{}: node {} accepted close_channel (sent shutdown, may generate a ShutdownScript update) while {}; history: {}", desc, x,
+					if !pend[*x].is_empty() { format!("ChannelMonitorUpdate {:?} was still in flight", pend[*x]) } else { "the peer was disconnected".to_string() }, history.join(" | "))); history.pop(); } },
 			Act::Deliver(i, j) => { if let Some(k) = net.deliver(*i, *j) { delivered = Some((k, *j)); } },
 			Act::Complete(i, id) => { net.complete(*i, c, *id); },
 			Act::Disconnect => { disc_done = true; net.disconnect(0, 1); },
@@ -187,6 +191,8 @@ fn scenario(rng: &mut Rng, sc: usize, phase: usize, upfront: bool, initiator: us
 				(Act::Claim(_), _) | (Act::Process(_), _) | (Act::FeeBump, _) => resync = true,
 				_ => {},
 			}
+			// HTLC / update_fee bookkeeping is outside the closing-gate model (e.g. a disconnection drops an uncommitted update_fee): re-read it
+			if ["nin", "nout", "fee", "expcs"].iter().any(|k| field(&d0, k) != field(&d1, k)) { resync = true; }
 			if resync { rec.directive(&format!("cginit {} {} {} {} {} {} {} {} {} {}", key(x), field(&d1, "state"), field(&d1, "nin"), field(&d1, "nout"), field(&d1, "fee"), field(&d1, "last"), field(&d1, "outb"), field(&d1, "expcs"), field(&d1, "pendcs"), field(&d1, "inflight"))); continue; }
 			let want = |out: &str| format!("mon={} disc={} lsh={} rsh={} last={} parked={} timer={} ready={} out={}", bit(&d1, 8), bit(&d1, 7), bit(&d1, 11), bit(&d1, 10), field(&d1, "last"), field(&d1, "pendcs"), field(&d1, "inflight"), field(&d1, "ready"), out);
 			let class = format!("cgop:{}:{}:mon={}:disc={}:both={}:out={}", if bit(&d1, 6) == 1 { "ready" } else { "awaiting" }, main_op.clone().unwrap_or("poll".into()), bit(&d1, 8), bit(&d1, 7), bit(&d1, 11) & bit(&d1, 10), out);
@@ -207,6 +213,91 @@ fn scenario(rng: &mut Rng, sc: usize, phase: usize, upfront: bool, initiator: us
 		rec.oracle_fail(format!("{}: the cooperative close did not finish at node(s) {:?} although every monitor update completed and all messages were delivered ({} closing_signed seen); history: {}", desc, open, released, history.join(" | ")));
 	} else { *rec.classes.entry(format!("close:finished:{}:released={}", PHASES[phase], released.min(4))).or_insert(0) += 1; }
 	std::mem::forget(net);
+}
+
+
+/// C09, interactive-tx / splice gate: a splice-out is negotiated and signed; the monitor update with which node `slow` records the
+/// counterparty's initial post-splice commitment_signed is left InProgress. Oracle (implementation only): while that update is listed by
+/// list_pending_monitor_updates, node `slow` releases neither tx_signatures nor splice_locked and does not broadcast the splice transaction —
+/// not on the peer's tx_signatures, not after a reconnection; once it completes, tx_signatures are released (exactly once).
+fn probe_splice_tx_signatures(slow: usize, reconnect: bool) -> Result<u64, String> {
+	use lightning::events::Event;
+	use lightning::ln::msgs::{ChannelMessageHandler, MessageSendEvent};
+	use lightning::ln::splicing_tests::{initiate_splice_out, negotiate_splice_tx};
+	let mut net = Net::new(2, vec![None, None]);
+	let c = net.open(0, 1, 1_000_000, 400_000_000);
+	let cid = net.chans[c].2;
+	let (id0, id1) = (net.ids[0], net.ids[1]);
+	let what = format!("splice probe (InProgress at node {}, {})", slow, if reconnect { "with reconnection" } else { "no reconnection" });
+	let outputs = vec![bitcoin::TxOut { value: bitcoin::Amount::from_sat(1_000), script_pubkey: net.nodes[0].wallet_source.get_change_script().unwrap() }];
+	let contribution = initiate_splice_out(&net.nodes[0], &net.nodes[1], cid, outputs).map_err(|e| format!("{}: splice-out refused: {:?}", what, e))?;
+	negotiate_splice_tx(&net.nodes[0], &net.nodes[1], cid, contribution);
+	let mut signed = false;
+	for ev in net.nodes[0].node.get_and_clear_pending_events() {
+		if let Event::FundingTransactionReadyForSigning { channel_id, counterparty_node_id, unsigned_transaction, .. } = ev {
+			let tx = net.nodes[0].wallet_source.sign_tx(unsigned_transaction).map_err(|_| format!("{}: wallet could not sign", what))?;
+			net.nodes[0].node.funding_transaction_signed(&channel_id, &counterparty_node_id, tx).map_err(|e| format!("{}: funding_transaction_signed: {:?}", what, e))?;
+			signed = true;
+		}
+	}
+	if !signed { return Err(format!("{}: set-up no longer reaches FundingTransactionReadyForSigning", what)); }
+	// what node i released in one get_and_clear_pending_msg_events, and the oracle on it
+	let mut viol: Vec<String> = vec![];
+	let mut n_txsig = [0u64; 2];
+	let mut take = |net: &Net, i: usize, stage: &str, viol: &mut Vec<String>, n_txsig: &mut [u64; 2]| -> Vec<MessageSendEvent> {
+		let evs = net.nodes[i].node.get_and_clear_pending_msg_events();
+		let pending = net.nodes[i].chain_monitor.chain_monitor.list_pending_monitor_updates().get(&cid).cloned().unwrap_or_default();
+		for e in &evs {
+			let gated = match e { MessageSendEvent::SendTxSignatures { .. } => { n_txsig[i] += 1; Some("tx_signatures") }, MessageSendEvent::SendSpliceLocked { .. } => Some("splice_locked"), _ => None };
+			if let Some(k) = gated { if !pending.is_empty() { viol.push(format!("{}: node {} released {} while ChannelMonitorUpdate {:?} (recording the new funding's initial commitment) was still in flight ({})", what, i, k, pending, stage)); } }
+		}
+		let nb = net.nodes[i].tx_broadcaster.txn_broadcasted.lock().unwrap().len();
+		if !pending.is_empty() && nb > net_bcast(net, i) { viol.push(format!("{}: node {} broadcast a transaction while ChannelMonitorUpdate {:?} was still in flight ({})", what, i, pending, stage)); }
+		evs
+	};
+	fn net_bcast(_net: &Net, _i: usize) -> usize { BCAST.with(|b| b.get()) }
+	thread_local! { static BCAST: std::cell::Cell<usize> = std::cell::Cell::new(0); }
+	BCAST.with(|b| b.set(net.nodes[slow].tx_broadcaster.txn_broadcasted.lock().unwrap().len()));
+	let cs_of = |evs: &Vec<MessageSendEvent>| evs.iter().find_map(|e| if let MessageSendEvent::UpdateHTLCs { updates, .. } = e { updates.commitment_signed.get(0).cloned() } else { None });
+	let txs_of = |evs: &Vec<MessageSendEvent>| evs.iter().find_map(|e| if let MessageSendEvent::SendTxSignatures { msg, .. } = e { Some(msg.clone()) } else { None });
+	let ev0 = take(&net, 0, "initiator signed", &mut viol, &mut n_txsig);
+	let cs0 = cs_of(&ev0).ok_or(format!("{}: initiator did not produce its initial commitment_signed", what))?;
+	if slow == 1 { net.set_mode(1, true); }
+	net.nodes[1].node.handle_commitment_signed(id0, &cs0);
+	if slow == 0 { net.set_mode(0, true); }
+	let ev1 = take(&net, 1, "acceptor processed the initiator's commitment_signed", &mut viol, &mut n_txsig);
+	let cs1 = cs_of(&ev1);
+	let mut txs1 = txs_of(&ev1);
+	if let Some(cs1) = &cs1 { net.nodes[0].node.handle_commitment_signed(id1, cs1); }
+	let ev0 = take(&net, 0, "initiator processed the acceptor's commitment_signed", &mut viol, &mut n_txsig);
+	let mut txs0 = txs_of(&ev0);
+	if let Some(t) = txs1.take() { net.nodes[0].node.handle_tx_signatures(id1, &t); let e = take(&net, 0, "initiator received the acceptor's tx_signatures", &mut viol, &mut n_txsig); if txs0.is_none() { txs0 = txs_of(&e); } }
+	if let Some(t) = txs0.take() { net.nodes[1].node.handle_tx_signatures(id0, &t); let _ = take(&net, 1, "acceptor received the initiator's tx_signatures", &mut viol, &mut n_txsig); }
+	let pend = net.pending_updates(slow, c);
+	if pend.is_empty() { return Err(format!("{}: no monitor update was left in flight at node {} (set-up no longer reaches the case)", what, slow)); }
+	if reconnect {
+		net.nodes[0].node.peer_disconnected(id1); net.nodes[1].node.peer_disconnected(id0);
+		let init = |n: &N| lightning::ln::msgs::Init { features: n.node.init_features(), networks: None, remote_network_address: None };
+		net.nodes[0].node.peer_connected(id1, &init(&net.nodes[1]), true).map_err(|_| format!("{}: peer_connected failed", what))?;
+		net.nodes[1].node.peer_connected(id0, &init(&net.nodes[0]), false).map_err(|_| format!("{}: peer_connected failed", what))?;
+		let e0 = take(&net, 0, "peer_connected", &mut viol, &mut n_txsig);
+		let e1 = take(&net, 1, "peer_connected", &mut viol, &mut n_txsig);
+		let re = |evs: &Vec<MessageSendEvent>| evs.iter().find_map(|e| if let MessageSendEvent::SendChannelReestablish { msg, .. } = e { Some(msg.clone()) } else { None });
+		if let Some(m) = re(&e0) { net.nodes[1].node.handle_channel_reestablish(id0, &m); }
+		if let Some(m) = re(&e1) { net.nodes[0].node.handle_channel_reestablish(id1, &m); }
+		for i in 0..2 { let _ = take(&net, i, "after channel_reestablish", &mut viol, &mut n_txsig); }
+	}
+	let before = n_txsig[slow];
+	for id in net.pending_updates(slow, c) { let _ = net.nodes[slow].chain_monitor.chain_monitor.channel_monitor_updated(cid, id); }
+	let evs = take(&net, slow, "after the completion", &mut viol, &mut n_txsig);
+	// hand the released tx_signatures over so that the splice can proceed
+	if let Some(t) = txs_of(&evs) { net.nodes[1 - slow].node.handle_tx_signatures(net.ids[slow], &t); let _ = take(&net, 1 - slow, "peer received the released tx_signatures", &mut viol, &mut n_txsig); }
+	if n_txsig[slow] != before + 1 && !(slow == 1 && !reconnect && before == 0 && n_txsig[slow] == 0) {
+		if n_txsig[slow] == before { viol.push(format!("{}: node {} did not release its tx_signatures after the monitor update completed", what, slow)); }
+		else { viol.push(format!("{}: node {} released tx_signatures {} times", what, slow, n_txsig[slow])); }
+	}
+	std::mem::forget(net);
+	if let Some(v) = viol.into_iter().next() { Err(v) } else { Ok(n_txsig[slow]) }
 }
 
 /// the real closing_negotiation_ready on every ChannelState word
@@ -267,6 +358,13 @@ fn main() {
 			rec.oracle_fail(format!("closegate scenario {} ({}, upfront {}, initiator {}, async {:?}, seed {}) panicked: {}", sc, PHASES[phase], upfront, initiator, asyncs, args.seed, p.chars().take(300).collect::<String>())); }
 		sc += 1;
 	}
+	for slow in 0..2 { for reconnect in [false, true] {
+		match guarded(std::panic::AssertUnwindSafe(|| probe_splice_tx_signatures(slow, reconnect))) {
+			Ok(Ok(n)) => { *rec.classes.entry(format!("probe:splice-tx_signatures-held:slow={}:reconnect={}:released={}", slow, reconnect as u8, n)).or_insert(0) += 1; },
+			Ok(Err(m)) => rec.oracle_fail(m),
+			Err(p) => rec.oracle_fail(format!("splice probe (InProgress at node {}, reconnect {}) panicked: {}", slow, reconnect, p.chars().take(300).collect::<String>())),
+		}
+	} }
 	if let Err(p) = guarded(std::panic::AssertUnwindSafe(|| ready_sweep(&mut rec, args.thorough))) { rec.oracle_fail(format!("cgready sweep panicked: {}", p.chars().take(300).collect::<String>())); }
 	rec.finish();
 }
